@@ -26,9 +26,57 @@
      C09_forloop_fields / _field_eval / _nested   the loop information, at every depth
      C09_cycle_*                            cycle: argument (position mod n), position + 1
      C09_ifchanged_*                        ifchanged: when it fires, what it remembers *)
+(* ---- second part (statements appended below) ---- *)
+(* Property C09, syntax half - the SYNTAX of if / for: print-then-compile gives the tree back.
+
+   Props/C09.v states what the nodes NIf / NFor / ... do.  Here the written syntax is tied to
+   those nodes: for the document language of Spec/SpecSyntax.v
+
+       dnode ::= DText s                                 literal text (non-empty, opens no delimiter)
+               | DVar n                                  {{ n }}
+               | DIf c body [(c_i, body_i) ...] else?    {% if c %} .. {% elif c_i %} .. {% else %} .. {% endif %}
+               | DFor x seq reversed? sorted? body empty?  {% for x in seq [reversed] [sorted] %} .. {% empty %} .. {% endfor %}
+
+   (conditions c: a name or "not" name; bodies are lists of dnode, arbitrary nesting, any number
+   of elif), [print_doc d] is the source text, and compiling that text - lexer, annotation pass,
+   document parser, every tag parser involved - gives exactly the template whose root is
+   [to_nodes d]:  an if becomes an NIf with the conditions IN ORDER and one wrapper per body in
+   order, the else wrapper last; a for an NFor with the loop variable, no second variable, the
+   sequence and the flags as written, the body and the optional empty branch; a text an NHtml
+   with no trimming flag.  (The two block flags of a text node are not "no flag": the model's
+   parser sets afterBlock / beforeBlock on a text that touches a tag, as pongo2 does for its
+   block options; [to_nodes] says exactly when: the neighbour is an if / a for, or the text is
+   the first / last element of a body.)
+
+   [wf_doc d]: names are letters and no reserved word, a text is non-empty and opens no
+   delimiter (also not together with a "{" that follows it), two texts are never adjacent.
+   [doc_size d]: a count of the constructs of d, the fuel the statement needs.
+   [syntax_cfg_ok cfg]: if and for are registered and not banned in the template set.
+
+   What each theorem contributes:
+   - C09_syntax_roundtrip (main): for every set, every well-formed document of any length and
+     nesting, and all fuel above doc_size: compile_src on print_doc d returns the template with
+     root to_nodes d, no blocks, no macros, no parent, the set's options, and the next fresh id.
+   - C09_syntax_stages: the two halves separately: the lexer accepts the printed text, and the
+     parser on the lexer's token list, annotated, gives to_nodes d in an unchanged parser state.
+   - C09_syntax_render: through the API (FromString + Execute) for every world that does not ban
+     the two tags: rendering the printed text is executing the expected tree.
+   - C09_if_source_semantics: the theorems of Props/C09.v about NIf become statements about the
+     written if: the template compiled from the text of an if has one root node, and that node
+     executes the (nodes of the) source body of the first true condition - whatever the later
+     conditions would do -, the else body if none is true, nothing if there is no else.
+   - C09s_hypotheses_needed: each condition of wf_doc excludes documents for which the statement
+     is false (adjacent texts are one text, an empty text is no node, a text ending in "{" opens
+     a delimiter with the construct after it, a reserved word is no name).
+   - C09s_example, C09s_if_example: the hypotheses are met by a document that uses every
+     construct (nested, empty bodies, names that coincide with tag words), and by an if in the
+     state an execution starts in; the model's compiler and the API, run by vm_compute, agree. *)
 From PV Require Import Model.Exec Model.Api Spec.SpecFlow.
 From PV Require Import gen.Scalar Tie.C09.
 From Coq Require Import Sorting.Permutation Sorting.Sorted.
+From PV Require Import Lib.Bytes Lib.Outcome Model.Lexer Model.Api.
+From PV Require Import Spec.SpecDash Spec.SpecFlow Spec.SpecSyntax.
+From PV Require Import Tie.C09s.
 Open Scope N_scope.
 
 (* ------------------------------------------------------------------ if *)
@@ -564,3 +612,140 @@ Theorem C09_forloop_struct_is_the_record : forall idx count parent,
   end.
 Proof. exact e2_loop_struct. Qed.
 Print Assumptions C09_forloop_struct_is_the_record.
+
+
+(* ==================== second part ==================== *)
+
+Theorem C09_syntax_roundtrip :
+  forall (se : senv) (d : list dnode) (F : nat) (name : str) (isstr : bool) (g : gstate),
+    syntax_cfg_ok (se_cfg se) = true -> wf_doc d = true -> (doc_size d <= F)%nat ->
+    compile_src se (S F) name isstr (print_doc d) g =
+    Ok (Tpl (g_nid g) name isstr (to_nodes (g_nid g) d) [] [] None (se_trim se) (se_lstrip se),
+        mkG (g_nid g + 1) (g_log g)).
+Proof. exact tie_compile_syntax. Qed.
+Print Assumptions C09_syntax_roundtrip.
+
+Theorem C09_syntax_stages : forall d : list dnode, wf_doc d = true ->
+  exists toks : list token,
+    lex (print_doc d) = LexOk toks /\
+    forall (se : senv) (F : nat) (st : pst),
+      syntax_cfg_ok (se_cfg se) = true -> (doc_size d <= F)%nat ->
+      parse_doc se F st (annotate None toks) = Ok (to_nodes (t_id (fst st)) d, st).
+Proof. exact tie_syntax_stages. Qed.
+Print Assumptions C09_syntax_stages.
+
+Theorem C09_syntax_render : forall (w : world) (d : list dnode) (ctx : list (str * cval)),
+  str_in w_if (w_banned_tags w) = false -> str_in w_for (w_banned_tags w) = false ->
+  wf_doc d = true -> N.of_nat (doc_size d) <= 59000 ->
+  api_render_string w (print_doc d) ctx =
+  run_template w (Tpl 1 [60; 115; 116; 114; 105; 110; 103; 62] (* <string> *) true (to_nodes 1 d)
+                      [] [] None (w_trim w) (w_lstrip w)) (mkG 2 []) ctx.
+Proof. exact tie_render_syntax. Qed.
+Print Assumptions C09_syntax_render.
+
+(* [if_conds c elifs]: the conditions in source order; [if_bodies b elifs els]: the bodies in
+   source order, the else body last; [body_nodes owner l]: the nodes of a body.  prefix_evals /
+   evals_pure / first_true / truth are those of Props/C09.v (Spec/SpecFlow.v). *)
+Theorem C09_if_source_semantics :
+  forall (se : senv) (globals : list (str * cval)) (c : cond) (b : list dnode)
+         (elifs : list (cond * list dnode)) (els : option (list dnode))
+         (F : nat) (name : str) (isstr : bool) (g : gstate),
+  syntax_cfg_ok (se_cfg se) = true ->
+  wf_doc [DIf c b elifs els] = true -> (doc_size [DIf c b elifs els] <= F)%nat ->
+  exists n,
+    compile_src se (S F) name isstr (print_doc [DIf c b elifs els]) g =
+      Ok (Tpl (g_nid g) name isstr [n] [] [] None (se_trim se) (se_lstrip se), mkG (g_nid g + 1) (g_log g)) /\
+    (* the first true condition is the k-th: its body runs *)
+    (forall st vs k body,
+       prefix_evals se globals st (if_conds c elifs) vs ->
+       first_true (map truth vs) = Some k ->
+       nth_error (if_bodies b elifs els) k = Some body ->
+       exists f0, forall f, (f0 <= f)%nat ->
+         exec_node se globals (S (S k) + f) st n = exec_nodes se globals f st (body_nodes (g_nid g) body)) /\
+    (* no condition is true: the else body runs, or nothing *)
+    (forall st vs,
+       Forall2 (evals_pure se globals st) (if_conds c elifs) vs ->
+       first_true (map truth vs) = None ->
+       exists f0, forall f, (f0 <= f)%nat ->
+         exec_node se globals (S (length (if_conds c elifs)) + f) st n =
+         match els with
+         | Some e => exec_nodes se globals f st (body_nodes (g_nid g) e)
+         | None => xok [] st
+         end).
+Proof. exact tie_if_source_semantics. Qed.
+Print Assumptions C09_if_source_semantics.
+
+(* ---------- non-vacuity ---------- *)
+(* a\n{% if not x %}b{{ y }}{% for i in xs reversed sorted %}{{ i }} {% empty %}{% endfor %}
+   {% elif z %}{% elif not endif %}c{% if q %}{% endif %}d{% else %}e{% endif %}
+   {% for reversed in sorted sorted %}f{% endfor %}{{ v }}      (without the line breaks):
+   every construct, nesting, empty bodies, an empty "empty" branch, names that are tag words *)
+Example C09s_example :
+  wf_doc c09s_doc = true /\ doc_size c09s_doc = 53%nat /\
+  syntax_cfg_ok (se_cfg (world_senv c09s_world)) = true /\
+  print_doc c09s_doc =
+    [97; 10; 123; 37; 32; 105; 102; 32; 110; 111; 116; 32; 120; 32; 37; 125; 98; 123; 123; 32; 121; 32; 125;
+     125; 123; 37; 32; 102; 111; 114; 32; 105; 32; 105; 110; 32; 120; 115; 32; 114; 101; 118; 101; 114; 115;
+     101; 100; 32; 115; 111; 114; 116; 101; 100; 32; 37; 125; 123; 123; 32; 105; 32; 125; 125; 32; 123; 37;
+     32; 101; 109; 112; 116; 121; 32; 37; 125; 123; 37; 32; 101; 110; 100; 102; 111; 114; 32; 37; 125; 123;
+     37; 32; 101; 108; 105; 102; 32; 122; 32; 37; 125; 123; 37; 32; 101; 108; 105; 102; 32; 110; 111; 116;
+     32; 101; 110; 100; 105; 102; 32; 37; 125; 99; 123; 37; 32; 105; 102; 32; 113; 32; 37; 125; 123; 37; 32;
+     101; 110; 100; 105; 102; 32; 37; 125; 100; 123; 37; 32; 101; 108; 115; 101; 32; 37; 125; 101; 123; 37;
+     32; 101; 110; 100; 105; 102; 32; 37; 125; 123; 37; 32; 102; 111; 114; 32; 114; 101; 118; 101; 114; 115;
+     101; 100; 32; 105; 110; 32; 115; 111; 114; 116; 101; 100; 32; 115; 111; 114; 116; 101; 100; 32; 37; 125;
+     102; 123; 37; 32; 101; 110; 100; 102; 111; 114; 32; 37; 125; 123; 123; 32; 118; 32; 125; 125] /\
+  to_nodes 1 c09s_doc =
+    [ NHtml 1 [97; 10] false false false true;
+      NIf [ESimple false true (var_expr [120]) None; var_expr [122];
+           ESimple false true (var_expr [101; 110; 100; 105; 102]) None]
+          [ [NHtml 1 [98] false false true false; NVar (var_expr [121]);
+             NFor [105] [] (var_expr [120; 115]) true true
+                  [NVar (var_expr [105]); NHtml 1 [32] false false false true] (Some [])];
+            [];
+            [NHtml 1 [99] false false true true; NIf [var_expr [113]] [[]];
+             NHtml 1 [100] false false true true];
+            [NHtml 1 [101] false false true true] ];
+      NFor [114; 101; 118; 101; 114; 115; 101; 100] [] (var_expr [115; 111; 114; 116; 101; 100]) false true
+           [NHtml 1 [102] false false true true] None;
+      NVar (var_expr [118]) ] /\
+  (* the model's compiler, run on the printed text with the fuel of the theorem *)
+  compile_src (world_senv c09s_world) (S (doc_size c09s_doc)) [60; 115; 116; 114; 105; 110; 103; 62] true
+              (print_doc c09s_doc) g0 =
+    Ok (Tpl 1 [60; 115; 116; 114; 105; 110; 103; 62] true (to_nodes 1 c09s_doc) [] [] None false false, mkG 2 []).
+Proof. exact tie_c09s_witness. Qed.
+
+(* x = 0, y = "a":  {% if x %}A{% elif not y %}B{% elif y %}{{ x }}C{% else %}D{% endif %}
+   in the state an execution starts in: the first two conditions evaluate, without side effect,
+   to 0 and False, the third to "a": the third body, "{{ x }}C", runs; the API prints "0C" *)
+Example C09s_if_example :
+  wf_doc [c09s_if] = true /\ doc_size [c09s_if] = 23%nat /\
+  prefix_evals (world_senv c09s_world) [] c09s_state
+               (if_conds (CName [120]) [(CNot [121], [DText [66]]); (CName [121], [DVar [120]; DText [67]])])
+               c09s_vals /\
+  first_true (map truth c09s_vals) = Some 2%nat /\
+  nth_error (if_bodies [DText [65]] [(CNot [121], [DText [66]]); (CName [121], [DVar [120]; DText [67]])]
+                       (Some [DText [68]])) 2 = Some [DVar [120]; DText [67]] /\
+  api_render_string c09s_world (print_doc [c09s_if]) c09s_ctx = OOk [48; 67].
+Proof. exact tie_c09s_if_witness. Qed.
+Print Assumptions C09s_example.
+Print Assumptions C09s_if_example.
+
+(* [c09s_compile d]: the root the model's compiler builds from print_doc d, or its error *)
+Example C09s_hypotheses_needed :
+  (* two adjacent texts are one text *)
+  wf_doc [DText [97]; DText [98]] = false /\
+  c09s_compile [DText [97]; DText [98]] = Ok [NHtml 1 [97; 98] false false false false] /\
+  to_nodes 1 [DText [97]; DText [98]] =
+    [NHtml 1 [97] false false false false; NHtml 1 [98] false false false false] /\
+  (* an empty text is no node *)
+  wf_doc [DText []] = false /\ c09s_compile [DText []] = Ok [] /\
+  (* "a{" before "{{ x }}" / before "{% if x %}": the text's brace opens the delimiter *)
+  wf_doc [DText [97; 123]; DVar [120]] = false /\ c09s_compile [DText [97; 123]; DVar [120]] = Err 2 /\
+  wf_doc [DText [97; 123]; DIf (CName [120]) [] [] None] = false /\
+  c09s_compile [DText [97; 123]; DIf (CName [120]) [] [] None] = Err 2 /\
+  (* a reserved word is no name:  {% if in %}   {% for x in not %} *)
+  wf_doc [DIf (CName [105; 110]) [] [] None] = false /\
+  c09s_compile [DIf (CName [105; 110]) [] [] None] = Err 2 /\
+  wf_doc [DFor [120] [110; 111; 116] false false [] None] = false /\
+  c09s_compile [DFor [120] [110; 111; 116] false false [] None] = Err 2.
+Proof. exact tie_c09s_needed. Qed.
